@@ -17,10 +17,9 @@ def main(tier, seed):
     binary = build()
     work = os.path.join(vcheck.VERIF, 'build', 'work', PID)
     os.makedirs(work, exist_ok=True)
-    env = dict(SAN_ENV)
-    for k in list(os.environ):
+    for k in list(os.environ):          # bin/check scrubs these too; the harness sets its own
         if k.endswith('_options'):
-            env[k] = ''          # run_shards copies os.environ; bin/check already scrubbed these
+            del os.environ[k]
     res = vcheck.run_shards(binary, 16, ['--tier', tier], env=SAN_ENV, timeout=3000)
     classes = vcheck.absorb(chk, res)
     # reference-model states travel as classes with a 'state:' prefix
@@ -51,10 +50,10 @@ def main(tier, seed):
         'alphabet': 'name forms {canonical, CANONICAL, inline synonyms, SYNONYM/Mixed, out-of-line synonym and its inline '
                     'synonym (both cases), wildcard keys pri:1:w pri:2:w pri_1_w, PRI:1:W, unknown zz/metho/pri:1:x} x '
                     'separators {=, " = ", blank} x ints {0,-7,42,99999999999} / doubles {1.5,-2e3,1e400} / strings '
-                    '{abc, \'a b\', "q\'q", \'\'} + name=? + flag + flag=1; reduced alphabet = separator "=" only plus 8 items',
+                    '{abc, \'a b\', "q\'q", \'\'} + name=? + flag + flag=1; reduced alphabet = explicit list in opt_harness.cc (every option, name-form class, item kind; values and separators thinned)',
         'totality': 'all byte strings of length <= %d over {a = blank \' " ? 0 - . 0x80} x prefixes {none, n=, s=, s=\', d=} x '
                     '{ParseOptionString(flags=0), ParseOptions(argv)} + %d long-token strings (48..4096 bytes)'
-                    % (blen, 0),
+                    % (blen, cov.get('B_long_token_strings', 0)),
         'switches': 'all argv sequences of length <= 3 over {-v -= -e -s -! -c -? -- -x -ss stub -AMPL n=1}'})
     chk.assumptions += [
         'Letter case: the statement demands case-insensitive synonyms; the code (and solver-test ParseOptionsCaseInsensitiveName) '
